@@ -95,6 +95,10 @@ var DefaultCoercers = struct {
 			}
 			return convVal, nil
 		case float64:
+			// -2^63 <= v < 2^63. This also rejects NaN and Inf
+			if !(v >= -9223372036854775808.0 && v < 9223372036854775808.0) {
+				return nil, fmt.Errorf("failed to coerce float to int: %v is out of range", v)
+			}
 			return int(v), nil
 		case bool:
 			if v {
